@@ -51,6 +51,7 @@ META = {
         "(text, inline code, code block, fence, math, raw HTML, image, thematic break) add something to the node being filled on every normal path (an empty token.content excepted); "
         "(g) nothing in the render scope removes nodes from a tree handed in by the caller or from the renderer's own nodes, unless the name was rebound to a deepcopy on every path; "
         "(h) the message node handed to note_explicit_target / note_implicit_target is not the target node itself when that node can be a text element or image (classes from constructors, call sites of node parameters, isinstance guards); "
+        "(j) where a block container handler drops the token's children under a reported condition (duplicate footnote definition ...), the condition inspects the token's data (label, content, attributes) as markdown-it produced it, not a normalised copy; "
         "(i) a node that gets a refname carries a rawsource (docutils' DanglingReferences transform, read from its source, replaces an unresolved reference by problematic(rawsource)). "
         "In the handlers of inline containers (link, em, strong, s, span - read off which rules push the opening token) and the helpers they hand the token to, a warning does not excuse dropping the children. "
         "R3 content: the text of text, inline code, code block, fence, math and raw HTML leaves is exactly token.content (def-use chain, extracted helpers followed); the code highlighter "
@@ -1751,6 +1752,14 @@ def r2_nesting_discipline(corpus: Corpus, rep: Report, tier: str):
                 else:
                     rep.ok("C02.R2", k, fi.module.site(op), f"`{root}` is a private copy on every path to the removal")
         if klass.fq == base_ci.fq:
+            # (j) where a container's children are dropped under a reported condition, the condition looks at the token's data as it is
+            for fi, rstmt, test, culprit in _drop_conditions(an, containers):
+                k = f"{fi.fq}|children dropped under `{short(test, 50)}`: the token's data is compared as it is"
+                if culprit is not None:
+                    rep.violation("C02.R2", k, fi.module.site(rstmt), f"{fi.qualname} drops the children of its token (with a warning) under a condition that looks at a transformed copy of the token's data, `{short(culprit, 50)}`: "
+                                  "tokens that markdown-it keeps apart (e.g. the footnote labels [^h] and [^H]) are taken for the same, and the content of the second one is missing from the doctree")
+                else:
+                    rep.ok("C02.R2", k, fi.module.site(rstmt), "token data used verbatim in the condition")
             # (h) a 'duplicate target' message must not be appended into a text element (leaf, title, rubric)
             for fi, call, verdict, why in _target_message_nodes(corpus, an):
                 k = f"{fi.fq}|{short(call.func, 40).split('.')[-1]}({', '.join(short(a, 20) for a in call.args)}) message node"
@@ -1861,6 +1870,104 @@ def _live_tree_removals(corpus: Corpus, an: Nesting):
                 out.append((f, op, root, f"the node handed in by the caller, which on some path has not been replaced by a copy (`{root} = {root}.deepcopy()`)"))
             else:
                 out.append((f, op, root, ""))
+    return out
+
+
+TOKEN_DATA_ATTRS = ("meta", "content", "info", "attrs", "markup")
+NEUTRAL_CALLS = {"any", "all", "bool", "len", "isinstance", "list", "tuple", "set", "iter"}
+
+
+def _param_transformed(m: FunctionInfo, pname: str):
+    """A call in helper ``m`` that takes the parameter (or a local computed from it) as argument or receiver, other than
+    neutral aggregations; None if the parameter is only compared / tested for membership as it is."""
+    derived = {pname}
+    changed = True
+    while changed:
+        changed = False
+        for n in m.local_nodes():
+            if isinstance(n, ast.Assign) and len(n.targets) == 1 and isinstance(n.targets[0], ast.Name) and n.targets[0].id not in derived and any(isinstance(x, ast.Name) and x.id in derived for x in ast.walk(n.value)):
+                derived.add(n.targets[0].id)
+                changed = True
+    for n in sorted((c for c in m.local_nodes() if isinstance(c, ast.Call)), key=lambda c: (c.lineno, c.col_offset)):
+        if (dotted(n.func) or "") in NEUTRAL_CALLS:
+            continue
+        args = list(n.args) + [k.value for k in n.keywords]
+        recv = [n.func.value] if isinstance(n.func, ast.Attribute) else []
+        for a in args + recv:
+            if isinstance(a, (ast.GeneratorExp, ast.ListComp)):
+                continue
+            if any(isinstance(x, ast.Name) and x.id in derived for x in ast.walk(a)):
+                return n
+    return None
+
+
+def _drop_conditions(an: "Nesting", containers: set[str]):
+    """(function, report statement, guard test, transforming call or None) for every condition under which a block
+    container handler reports and then leaves without rendering the token's children. The data of the token that such a
+    condition inspects (label, content, attributes) must be used as markdown-it produced it: a comparison of a normalised
+    copy (lower-cased, fully_normalize_name, stripped ...) merges tokens that the parser distinguishes."""
+    out = []
+    for fi in an.scope():
+        if fi.cls is None or fi.cls.fq != an.k.fq or fi.fq in an.inline_scope():
+            continue
+        if not (fi.name.startswith("render_") and fi.name[len("render_"):] in containers):
+            continue
+        tok = _tok_param(fi)
+        if tok is None:
+            continue
+        cfg = get_cfg(fi)
+        entry = [e for e in cfg.succ.get("ENTRY", []) if isinstance(e, ast.stmt)]
+
+        def token_data(e: ast.AST, depth: int = 0) -> bool:
+            bound = {x.id for c in ast.walk(e) if isinstance(c, ast.comprehension) for x in ast.walk(c.target) if isinstance(x, ast.Name)}
+            for n in ast.walk(e):
+                if isinstance(n, ast.Name) and n.id in bound:
+                    continue
+                if isinstance(n, ast.Attribute) and n.attr in TOKEN_DATA_ATTRS and isinstance(n.value, ast.Name) and n.value.id == tok:
+                    return True
+                if isinstance(n, ast.Name) and depth < 4 and n.id != tok and n.id not in fi.params:
+                    if any(token_data(d, depth + 1) for d in _all_defs(fi, n.id)):
+                        return True
+            return False
+
+        def transforming_call(e: ast.AST, depth: int = 0):
+            """A call that takes token data as argument / receiver (other than neutral aggregations), in ``e`` or in the
+            definition of a local used in ``e``."""
+            bound = {x.id for c in ast.walk(e) if isinstance(c, ast.comprehension) for x in ast.walk(c.target) if isinstance(x, ast.Name)}
+            for n in ast.walk(e):
+                if isinstance(n, ast.Name) and n.id in bound:
+                    continue  # a comprehension variable, not the function's local of the same name
+                if isinstance(n, ast.Call) and (dotted(n.func) or "") not in NEUTRAL_CALLS:
+                    args = list(n.args) + [k.value for k in n.keywords]
+                    recv = [n.func.value] if isinstance(n.func, ast.Attribute) and not _is_self_call(n) else []
+                    if any(not isinstance(a, (ast.GeneratorExp, ast.ListComp)) and token_data(a) for a in args + recv):
+                        helper = an.resolve_callee(n, fi)
+                        if helper is not None and not helper.is_lambda and depth < 2:
+                            # a predicate extracted into a package helper: the same question about its parameter(s)
+                            inner = None
+                            for pn in an._param_for_arg(n, helper, lambda x: not isinstance(x, (ast.GeneratorExp, ast.ListComp)) and token_data(x)):
+                                inner = inner or _param_transformed(helper, pn)
+                            if inner is None:
+                                continue
+                            return inner
+                        return n
+                if isinstance(n, ast.Name) and depth < 3 and n.id != tok and n.id not in fi.params:
+                    for d in _all_defs(fi, n.id):
+                        if token_data(d):
+                            r = transforming_call(d, depth + 1)
+                            if r is not None:
+                                return r
+            return None
+
+        for st in sorted((x for x in fi.local_nodes() if isinstance(x, ast.stmt)), key=lambda x: x.lineno):
+            if not an.is_report(st, fi) or all(cfg.postdominates(st, e) for e in entry):
+                continue
+            res, _ = an.consume_paths(fi, st, tok)
+            if not any(c == 0 for c, _x in res):
+                continue  # the children are still rendered after this report
+            for t, _pol in cfg.guards(st):
+                if token_data(t):
+                    out.append((fi, st, t, transforming_call(t)))
     return out
 
 
@@ -4492,6 +4599,18 @@ def mutants(corpus: Corpus):
     f = sph.func("SphinxRenderer.render_link_path")
     kw = find_node(f, lambda n: isinstance(n, ast.keyword) and n.arg == "reftarget")
     add("c02-sphinx-reftarget-percent-encoded", "C02.R3", sph, kw.value if kw else None, 'cast(str, token.attrGet("href") or "")', "decoded target name")
+
+    # class: the duplicate-definition test compares a normalised copy of the footnote label
+    f = base.func(R + "render_footnote_reference")
+    cmpn = find_node(f, lambda n: isinstance(n, ast.Compare) and isinstance(n.ops[0], ast.In) and isinstance(n.left, ast.Name) and any(isinstance(p_, ast.GeneratorExp) for p_ in ancestors(n)))
+    if cmpn is not None:
+        lab = cmpn.left.id
+        rhs = _seg(base, cmpn.comparators[0])
+        add("c02-footnote-duplicate-test-normalised", "C02.R2", base, cmpn, f"nodes.fully_normalize_name({lab}) in [nodes.fully_normalize_name(n_) for n_ in {rhs}]", "compared as it is")
+        add("c02-footnote-duplicate-test-case-folded", "C02.R2", base, cmpn, f"{lab}.lower() in [n_.lower() for n_ in {rhs}]", "compared as it is")
+        add("c02-footnote-duplicate-test-stripped", "C02.R2", base, cmpn.left, f"{lab}.strip()", "compared as it is")
+    else:
+        out.append(("c02-footnote-duplicate-test-*", "membership test of the label not found"))
 
     # ---- R4
     f = base.func(R + "render_paragraph")
